@@ -44,11 +44,13 @@ def enumerate_cases(tier, shard, nshards):
     i = 0
     for L in range(1, 5):
         for combo in itertools.product(TOK, repeat=L):
+            # the four spellings of one pattern (with/without trailing ~, with/without (?i)) are compiled in ONE process, the (?i) form
+            # first for every other pattern: what a spelling means must not depend on which spelling was compiled before
+            i += 1
+            if i % nshards != shard:
+                continue
             for tilde in (False, True):
-                for icase in (False, True):
-                    i += 1
-                    if i % nshards != shard:
-                        continue
+                for icase in ((False, True) if (i // nshards) % 2 == 0 else (True, False)):
                     yield {"enum": True, "kind": "grid", "pattern": ("(?i)" if icase else "") + " ".join(combo) + (" ~" if tilde else "")}
     for j, (vendor, model) in enumerate(SHIPPED_HW):
         if j % nshards == shard:
@@ -268,11 +270,14 @@ def _gen(case):
         rows.append(" ".join(w[:-1]) if len(w) > 1 else pos + "zz")
         rows.append(pos + "zz")
         labels.append("near-miss")
-    acl = compile_acl_text(sep.join(pattern.split(" ")) + "\n", vendor)
-    order = compile_ordering_text(sep.join(pattern.split(" ")) + "\n", vendor)
-    (prule,) = compile_patching_text(text, vendor)["local"].values()
-    dep = compile_deploying_text(text, vendor)
-    imp = implicit.compile_tree({"x": {"row": pattern, "type": "normal", "children": {}}})
+    try:
+        acl = compile_acl_text(sep.join(pattern.split(" ")) + "\n", vendor)
+        order = compile_ordering_text(sep.join(pattern.split(" ")) + "\n", vendor)
+        (prule,) = compile_patching_text(text, vendor)["local"].values()
+        dep = compile_deploying_text(text, vendor)
+        imp = implicit.compile_tree({"x": {"row": pattern, "type": "normal", "children": {}}})
+    except Exception as e:   # a rule line of the grammar must compile in every rulebook kind
+        raise Violation("compile-raises", f"rule line {text!r} ({vendor}) does not compile: {type(e).__name__}: {e}", {"pattern": pattern, "text": text})
     plain = pattern.replace("(?i)", "").strip()
     starts_rev = toks[0] == rev and len(toks) > 1
     # negating a negated rule gives back the plain rule
